@@ -91,6 +91,24 @@ let check inp obs =
                   (if String.length tok > 40 then String.sub tok 0 40 ^ ".." else tok) mo ob)
        (List.combine toks o));
   let okk = (!why = "") in
+  (* history-shape buckets: writes that meet nodes loaded from the database *)
+  let shape =
+    let reopened = ref false and committed = ref false and t = ref [] in
+    let add x = if not (List.mem x !t) then t := x :: !t in
+    List.iter (fun tok ->
+      match String.split_on_char ':' tok with
+      | "p" :: k :: _ ->
+        if !reopened then add "put-after-reopen" else if !committed then add "put-after-commit";
+        if k = "-" then add "empty-key";
+        if String.length k >= 62 then add "key-ge-31-bytes"
+      | "d" :: k :: _ ->
+        if !reopened then add "delete-after-reopen" else if !committed then add "delete-after-commit";
+        if k = "-" then add "empty-key"
+      | ["h"] -> committed := true
+      | ["R"] -> reopened := true
+      | _ -> ()) toks;
+    (if !m = [] && !n_put > 0 then add "ends-empty");
+    List.sort compare !t in
   let tags = String.concat "," (
     [ (match ver with V0 -> "v0" | V1 -> "v1") ]
     @ (if !n_del > 0 then ["delete"] else [])
@@ -99,8 +117,29 @@ let check inp obs =
     @ (if !hashed then ["hashed-value"] else [])
     @ (if !n_hit > 0 then ["reopen-hit"] else [])
     @ (if !n_get > !n_hit then ["reopen-absent"] else [])
-    @ (if !dbchecked then ["database-checked"] else [])) in
+    @ (if !dbchecked then ["database-checked"] else []) @ shape) in
   { prop_ok = okk; model_eq = okk && !dbwhy = ""; nontrivial = (!n_put > 0); finding = "-"; tags;
     detail = (if not okk then !why else !dbwhy) }
 
-let () = run_driver check
+(* vm_compute cross-check (coq/C06/VmCheck.v): roots and reopened reads recomputed inside Coq *)
+let coq inp obs =
+  let toks = split_ws inp and o = split_ws obs in
+  match toks with
+  | v :: toks when (v = "0" || v = "1") && List.length toks = List.length o ->
+    (try
+      let items = List.filter_map (fun (tok, ob) ->
+        match String.split_on_char ':' tok with
+        | ["p"; k; v] -> if ob <> "ok" then raise Exit else
+            Some (Printf.sprintf "TP %s %s" (coq_bytes (bytes_of_hex k)) (coq_bytes (bytes_of_hex v)))
+        | ["d"; k] -> if ob <> "ok" then raise Exit else Some (Printf.sprintf "TD %s" (coq_bytes (bytes_of_hex k)))
+        | ["h"] | ["R"] -> if ob = "err" then raise Exit else Some (Printf.sprintf "TH %s" (coq_bytes (bytes_of_hex ob)))
+        | ["g"; k] ->
+          Some (Printf.sprintf "TG %s %s" (coq_bytes (bytes_of_hex k))
+                  (if ob = "nil" then "None" else "(Some " ^ coq_bytes (bytes_of_hex ob) ^ ")"))
+        | ["D"] -> None
+        | _ -> raise Exit) (List.combine toks o) in
+      Some (Printf.sprintf "vm_run blake2b_256 %s [] [%s]" (if v = "1" then "V1" else "V0") (String.concat "; " items))
+    with Exit -> None)
+  | _ -> None
+
+let () = run_driver ~coq check
